@@ -125,6 +125,11 @@ def spaces(tier):
                 "{run_experiment, run_command, group, combine}, parallelizable bits, cache bit per experiment, --again, "
                 "--jobs 1..2, every completion order, one symbolic exit status 0..255 per child",
                 depth=7, goals=GOALS3, outside=["N>3", "jobs>2", "delayed/batched SIGCHLD (see C09)"])]
+    from vlib import induct
+    sp.append(Space("inductive-wait-step", induct.wait_step,
+                    "ONE real _wait_for_next_inflight_op step from an arbitrary valid executor state (1..4 slots, any in-flight set): "
+                    "a dependent is enqueued if and only if all of its dependencies have finished - for graphs of any size",
+                    depth=6, goals=["inductive step completes an operation"]))
     if tier == "thorough":
         sp.append(Space("n4-subprocess-j3", make(4, ("run_experiment", "run_command"), 3, cache=False, orders="rev"),
                         "N=4, kinds {run_experiment, run_command}, --jobs 1..3, --again bit, no cache bits, "
